@@ -85,7 +85,7 @@ pub fn props() -> Vec<PropCfg> {
         },
         PropCfg {
             id: "C04",
-            profiles: &[("C04", 5), ("C04-encfail", 2), ("C04-stock", 2)],
+            profiles: &[("C04", 5), ("C04-encfail", 2), ("C04-stock", 2), ("C04-quota", 1)],
             quick_runs: 60000,
             thorough_runs: 1000000,
             level: "exploration",
@@ -148,7 +148,7 @@ pub fn props() -> Vec<PropCfg> {
         },
         PropCfg {
             id: "C16",
-            profiles: &[("C16", 69), ("C16-huge", 10), ("C16-fault", 1)],
+            profiles: &[("C16", 65), ("C16-huge", 10), ("C16-encfail", 4), ("C16-fault", 1)],
             quick_runs: 60000,
             thorough_runs: 1000000,
             level: "exploration",
@@ -159,7 +159,7 @@ pub fn props() -> Vec<PropCfg> {
         },
         PropCfg {
             id: "C17",
-            profiles: &[("C17", 39), ("C17-fault", 1)],
+            profiles: &[("C17", 35), ("C17-encfail", 4), ("C17-fault", 1)],
             quick_runs: 40000,
             thorough_runs: 600000,
             level: "exploration",
